@@ -492,6 +492,7 @@ def related_harnesses(prop, fnkey):
     return out
 
 
+FC_CONTRACTS = {'add_mod': 'fc_add_mod', 'sub_mod': 'fc_sub_mod'}
 ARITH_MSG = re.compile(r'arithmetic underflow/overflow|division by zero|possible overflow')
 
 
@@ -655,6 +656,19 @@ def check(prop, tier, seed, legs=('verus', 'kani'), keep=False, only=None):
                             hit = dict(harness=hname, choices=r.get('choices', ''), inputs=r.get('inputs', ''), message=r.get('message', ''), runs=r.get('runs'))
                             break
             search_budget_s[0] -= (time.time() - t_search)
+            # a function that carries an attribute-form Kani contract: if proof_for_contract just PROVED the same contract for
+            # all 64-bit arguments (loop-free, complete), an undischarged Verus postcondition of that function is a lost proof
+            fc = FC_CONTRACTS.get((v.get('function') or '').split('::')[-1]) if v['leg'] == 'verus' else None
+            fc_proved = False
+            if fc and kp and kp.get('out') is not None:
+                r_fc = kp['out'].results.get('h_%s_n0' % fc)
+                fc_proved = bool(r_fc and r_fc['status'] == 'success' and r_fc['checks'] > 0)
+            if fc_proved and not hit and not ARITH_MSG.search(v.get('verus_msg', '')):
+                demoted.append(v)
+                log('note: verus obligation `%s` in %s is no longer discharged (%s), but Kani just proved the same function contract for all 64-bit arguments (%s, complete): '
+                    'treated as a lost proof (undecided), not as a violation' % (v['obligation'], v['function'], v.get('verus_msg', ''), fc))
+                search_budget_s[0] -= (time.time() - t_search)
+                continue
             if (v['leg'] == 'verus' and not hit and all_exhausted and not ARITH_MSG.search(v.get('verus_msg', ''))
                     and not any(w['leg'] != 'verus' and w['property'] == prop for w, _ in new_v)):
                 # Triage of an undischarged FUNCTIONAL obligation (tool limit vs. real defect): the same contract, as
